@@ -251,6 +251,7 @@ Definition apply_fn (id : nat) (x : list cell) : aresult :=
   | 5%nat => RStrs (map (fun c => if is_nil c then [] else s_k) x)
   | 6%nat => RBools (map is_nil x)
   | 7%nat => RNilRes
+  | 9%nat => RAny x          (* hands back its own argument slice (only used where that is allowed) *)
   | _ => RAny (map (fun c => match c with CS _ => CNil | _ => c end) x)
   end.
 Definition apply_col (id : nat) (d : list cell) : out (list cell) :=
